@@ -135,6 +135,19 @@ class _ConstantFindingMapper(CombineMapper):
         self.is_constant[expr] = result
         return result
 
+    # The single-child handlers of CombineMapper hand back the result for
+    # the child without calling combine(), which would leave their node on
+    # the stack.
+
+    def map_logical_not(self, expr):
+        return self.combine([self.rec(expr.child)])
+
+    map_bitwise_not = map_logical_not
+    map_common_subexpression = map_logical_not
+
+    def map_lookup(self, expr):
+        return self.combine([self.rec(expr.aggregate)])
+
 
 def _is_atomic(expr):
     return isinstance(expr, Variable) or is_constant(expr)
